@@ -4,7 +4,7 @@
 // composition of the two contracts.  Bounded: inputs of 0..=4 bytes (the visitors copy).
 #![allow(unused_imports, unused_variables, unused_mut, dead_code)]
 use super::*;
-use serde::de::value::{Error as DeError, SeqDeserializer};
+use serde::de::value::Error as DeError;
 use serde::de::Visitor;
 
 fn input() -> ([u8; 4], usize) {
@@ -46,14 +46,28 @@ fn kx_serde_visit_str_and_string() {
     }
 }
 
-// @ob props=C15,C17 tier=quick kind=Kbounded bound="sequence of 0..=3 elements" features=serde timeout=1800 fns=BytesVisitor::visit_seq,BytesMutVisitor::visit_seq
+/// minimal SeqAccess over an array; its size hint is whatever the solver likes (it is only a hint)
+struct ArrSeq { data: [u8; 4], n: usize, i: usize }
+impl<'de> serde::de::SeqAccess<'de> for ArrSeq {
+    type Error = DeError;
+    fn next_element_seed<T: serde::de::DeserializeSeed<'de>>(&mut self, seed: T) -> Result<Option<T::Value>, DeError> {
+        use serde::de::IntoDeserializer;
+        if self.i >= self.n { return Ok(None); }
+        let v = self.data[self.i];
+        self.i += 1;
+        seed.deserialize(v.into_deserializer()).map(Some)
+    }
+    fn size_hint(&self) -> Option<usize> { if kani::any() { None } else { Some(kani::any()) } }
+}
+
+// @ob props=C15,C17 tier=quick kind=Kbounded bound="sequence of 0..=2 elements, arbitrary size hint" features=serde timeout=1800 fns=BytesVisitor::visit_seq,BytesMutVisitor::visit_seq
 #[kani::proof]
-#[kani::unwind(6)]
+#[kani::unwind(5)]
 fn kx_serde_visit_seq() {
     let (a, n) = input();
-    kani::assume(n <= 3);
+    kani::assume(n <= 2);
     let i: usize = kani::any();
-    let seq = SeqDeserializer::<_, DeError>::new(a[..n].to_vec().into_iter());
+    let seq = ArrSeq { data: a, n, i: 0 };
     if kani::any() {
         let b: Bytes = BytesVisitor.visit_seq(seq).unwrap();
         assert!(b.len() == n);
